@@ -202,7 +202,7 @@ def run(chk):
                        "type-name rules frozen in the spec: a-z 0-9 hyphen, 3..250 characters, 2.1 begins with a-z, 2.1 extensions end in -ext or are extension-definition ids; "
                        "double hyphens carry no obligation",
                        "registries are restored from a snapshot between histories (process-wide state)"]
-    res = chk.add_tlc("S1_model_check", tlc.run("MC_Registry", "MC_Registry" if quick else "MC_RegistryThorough", workers=16, scratch=chk.scratch, timeout=7200))
+    res = chk.add_tlc("S1_model_check", tlc.run("MC_Registry", "MC_Registry" if quick else "MC_RegistryThorough", workers=16, coverage=True, scratch=chk.scratch, timeout=7200))
     if not res.completed:
         chk.spec_violation("S1", res)
     neg = tlc.run("Neg_Registry", "Neg_Registry", workers=2, scratch=chk.scratch)
